@@ -6,23 +6,44 @@ first of `root, root_{n+1}, root_{n+2}, …` that is not in the function's names
 not in the flattened reserved set and not generated before; record it as generated.
 
 The Python loop is unbounded; the model searches `taken.length + 1` candidates, which by pigeonhole
-always contains a free one (theorem `newSymbol_fresh` in Props/C11.lean), so the bound is never hit.
+always contains a free one (theorem `firstFree_not_mem` / `namer_fresh` in Props/C11.lean), so the
+bound is never hit.
+
+Everything is structural recursion over `List Char` / `List String`, so the kernel can evaluate the
+model on string literals (`by decide` examples in Props/C11.lean).
+
+Scope of faithfulness: identifiers made of ASCII characters.  (`str.isdigit`/`int` also accept
+non-ASCII decimal digits such as '٣', which CPython allows in identifiers; the model treats only
+'0'…'9' as digits.  The harness generates ASCII identifiers only; stated as an assumption of C11.)
 -/
 namespace Malt.Naming
 
 structure Namer where
   globalNs : List String      -- keys of ctx.info.namespace
   generated : List String     -- generated_names, most recent first
-  deriving Repr, Inhabited
+  deriving Repr, Inhabited, DecidableEq
 
-def isDigits (s : String) : Bool := !s.isEmpty && s.all Char.isDigit
+/-- `str.isdigit()` on ASCII strings: non-empty and all characters are decimal digits. -/
+def isDigits (s : String) : Bool := !s.toList.isEmpty && s.toList.all Char.isDigit
 
-/-- `pieces = name_root.split('_')`; a trailing all-digit piece is the start counter. -/
+/-- `int(s)` for a list of ASCII digits, most significant first. -/
+def digitsVal (cs : List Char) : Nat := Nat.ofDigitChars 10 cs 0
+
+/-- `pieces = name_root.split('_')`; if the last piece is all digits it is the start counter and
+the root is the `'_'.join` of the other pieces.  Computed on the reversed character list: the last
+piece is all digits iff the maximal trailing run of digits is non-empty and is either preceded by
+`'_'` or is the whole string (then `pieces[:-1] = []` and the root becomes `''`). -/
+def splitRootChars (cs : List Char) : Option (List Char × Nat) :=
+  let r := cs.reverse
+  match r.takeWhile Char.isDigit, r.dropWhile Char.isDigit with
+  | [], _ => none                                            -- last piece empty or not numeric
+  | ds, [] => some ([], digitsVal ds.reverse)                -- the whole root is a number
+  | ds, '_' :: rest => some (rest.reverse, digitsVal ds.reverse)
+  | _, _ :: _ => none                                        -- digits glued to a word: `x1`
+
 def splitRoot (root : String) : String × Nat :=
-  let pieces := root.splitOn "_"
-  match pieces.getLast? with
-  | some last =>
-    if isDigits last then ("_".intercalate pieces.dropLast, last.toNat!) else (root, 0)
+  match splitRootChars root.toList with
+  | some (cs, n) => (String.ofList cs, n)
   | none => (root, 0)
 
 def candidate (root : String) (k : Nat) : String := root ++ "_" ++ toString k
@@ -38,5 +59,20 @@ def newSymbol (nm : Namer) (nameRoot : String) (reserved : List String) : String
   let taken := nm.globalNs ++ reserved ++ nm.generated
   let name := if taken.contains root then firstFree root taken (n + 1) (taken.length + 1) else root
   (name, { nm with generated := name :: nm.generated })
+
+/-- A recorded request `new_symbol(root, reserved)` (reserved already flattened: a qualified name
+`a.b` contributes its components `a`, `b`, exactly as `Namer.new_symbol` flattens QNs). -/
+structure Call where
+  root : String
+  reserved : List String
+  deriving Repr, Inhabited, DecidableEq
+
+/-- Replay a sequence of calls; returns the produced names in call order and the final namer. -/
+def runCalls (nm : Namer) : List Call → List String × Namer
+  | [] => ([], nm)
+  | c :: cs =>
+    let (x, nm') := newSymbol nm c.root c.reserved
+    let (xs, nm'') := runCalls nm' cs
+    (x :: xs, nm'')
 
 end Malt.Naming
